@@ -58,6 +58,7 @@ def build_world() -> World:
     f("Node", "output", OPAQUE)
     f("Node", "max_iterations", INT)
     f("Node", "logic", Ref("Logic"))
+    f("Node", "machine_output", OPAQUE)
     f("Logic", "actions", DictSort(STR, Callable_))       # MachineLogic.actions: name -> user callable
     f("Logic", "services", DictSort(STR, OPAQUE))
     f("Logic", "guards", DictSort(STR, Callable_))        # MachineLogic.guards: name -> user predicate
@@ -172,7 +173,10 @@ def build_world() -> World:
     # height(n): length of the longest path below n - exists because the tree is finite (A-tree); used as termination measure of
     # the recursive entry routine
     w.fn("height", [Node], INT)
-    ax("T-height", "forall[Node](lambda n: implies(n != None, height(n) >= 0 and height(n) <= height(root) and implies(n.parent != None, height(n) < height(n.parent))), lambda n: height(n))",
+    ax("T-height", "forall[Node](lambda n: implies(n != None, height(n) >= 0 and height(n) <= height(root)), lambda n: height(n))",
+       "assumed: the state tree is finite (A-tree), so every node has a height, at most the root's")
+    # the multi-pattern keeps instantiation from creating height(parent(parent(...))) terms for ever (a matching loop)
+    ax("T-height-step", "forall[Node](lambda n: implies(n != None and n.parent != None, height(n) < height(n.parent)), lambda n: (height(n), height(n.parent)))",
        "assumed: the state tree is finite (A-tree), so every node has a height, smaller than its parent's and at most the root's")
 
     # ---- where transitions live: every TransitionDefinition stored on a state has that state as its source
